@@ -118,6 +118,32 @@ example : toMaxint (ofStr "000170141183460469231731687303715884105727") = .ok (2
 example : ∃ e, calcTree (ofStr "1/0") = .ok e ∧ evalExact e = none :=
   ⟨.bin .div (.lit 1) (.lit 0), by decide +kernel, by decide +kernel⟩
 
+/-- the 64-bit command-line options never count for another number: whenever `primecount <s> --<64-bit option>` hands a
+    number `w` to the 64-bit function, `w` IS the exact value of the expression (same value as the 128-bit evaluation) and
+    lies in int64; every other string is rejected (repaired `to_int64`, finding F8) -/
+theorem cli64_exact (s : Bytes) (w : Int) (h : cliNumber64 s = .ok w) :
+    cliNumber s = .ok w ∧ -(2 : Int) ^ 63 ≤ w ∧ w < (2 : Int) ^ 63 := by
+  unfold cliNumber64 at h
+  cases hc : cliNumber s with
+  | error e => simp only [hc] at h; cases h
+  | ok v =>
+    simp only [hc, cliToInt64] at h
+    by_cases hr : -(2 : Int) ^ 63 ≤ v ∧ v < (2 : Int) ^ 63
+    · simp only [if_pos hr] at h
+      cases h
+      exact ⟨rfl, hr.1, hr.2⟩
+    · simp only [if_neg hr] at h
+      cases h
+
+/-- a value outside int64 (either side) is rejected by every 64-bit option -/
+theorem cli64_rejects_outside (s : Bytes) (v : Int) (hv : cliNumber s = .ok v)
+    (ho : v < -(2 : Int) ^ 63 ∨ (2 : Int) ^ 63 ≤ v) : cliNumber64 s = .error .tooLarge := by
+  have hn : ¬ (-(2 : Int) ^ 63 ≤ v ∧ v < (2 : Int) ^ 63) := by omega
+  simp only [cliNumber64, hv, cliToInt64, if_neg hn]
+
+-- the witness of finding F8: the unrepaired narrowing `(int64_t) v` of v = -(2^64 - 100) is 100
+example : cliToInt64 (-(2 ^ 64 - 100)) = .error .tooLarge ∧ cliToInt64 100 = .ok 100 := by decide
+
 end Pc.C13
 
 #print axioms Pc.C13.calc_sound
@@ -131,6 +157,8 @@ end Pc.C13
 #print axioms Pc.C13.calculate_exact
 #print axioms Pc.C13.model_total
 #print axioms Pc.C13.f2_unrepaired_unsound
+#print axioms Pc.C13.cli64_exact
+#print axioms Pc.C13.cli64_rejects_outside
 -- generated obligations (operator table of parseOp extracted from include/calculator.hpp)
 #print axioms Pc.Gen.calcOpTable_ok
 #print axioms Pc.Gen.calcOp_default
